@@ -107,6 +107,8 @@ func (prop) Generate(rng *rand.Rand, tier string) []corr.Case {
 		}
 		flush("random")
 	}
+	// the slot calculator and fork choice over explicit times (slot.go)
+	cases = append(cases, slotCases(rng, tier)...)
 	return cases
 }
 
@@ -235,6 +237,10 @@ func (prop) RunImpl(c corr.Case) ([]string, []corr.Fail) {
 				fails = append(fails, corr.Fail{Sig: "better-chain-not-lex-larger", Detail: op, Op: i})
 			}
 			out = append(out, fmt.Sprintf("%v %v %v %v %v %s", fc.IsIdenticalBlock(), fc.IsValidBlock(), fc.IsDoubleForging(), fc.IsTieBreak(), fc.IsDifferentChain(), class))
+		case "slot", "slott", "fct":
+			o, fs := runSlotOp(w, op, i)
+			out = append(out, o)
+			fails = append(fails, fs...)
 		default:
 			out = append(out, "bad-op")
 		}
